@@ -155,7 +155,7 @@ func TestVerifC05Child(t *testing.T) {
 	}
 	var put func(sig [64]byte)
 	var writerHas func(sig [64]byte) bool
-	var seal func() error
+	var seal, closeW func() error
 	if format == "current" {
 		w, err := NewWriter(path)
 		if err != nil {
@@ -163,11 +163,10 @@ func TestVerifC05Child(t *testing.T) {
 		}
 		put, writerHas = w.Put, w.Has
 		seal = func() error {
-			if _, err := w.Seal(indexmeta.Meta{}); err != nil {
-				return err
-			}
-			return w.Close()
+			_, err := w.Seal(indexmeta.Meta{})
+			return err
 		}
+		closeW = w.Close
 	} else {
 		w, err := deprecated.NewWriter(path)
 		if err != nil {
@@ -175,11 +174,10 @@ func TestVerifC05Child(t *testing.T) {
 		}
 		put, writerHas = w.Put, w.Has
 		seal = func() error {
-			if _, err := w.Seal(map[string]string{"epoch": "7"}); err != nil {
-				return err
-			}
-			return w.Close()
+			_, err := w.Seal(map[string]string{"epoch": "7"})
+			return err
 		}
+		closeW = w.Close
 	}
 	added := 0
 	order := rng.Perm(len(bks))
@@ -226,6 +224,21 @@ func TestVerifC05Child(t *testing.T) {
 	}
 	if err := seal(); err != nil {
 		out.Emit(c05Obs{Format: format, Reader: "-", Added: added, Buckets: []c05Bucket{}, Err: "seal: " + err.Error()})
+		return
+	}
+	// ... and after sealing: the writer still has to agree with the file it has just written
+	for _, b := range bks {
+		ok := wAgree[b]
+		for _, s := range b.sigs {
+			ok = ok && writerHas(s)
+		}
+		for _, a := range absent[b] {
+			ok = ok && !writerHas(a)
+		}
+		wAgree[b] = ok
+	}
+	if err := closeW(); err != nil {
+		out.Emit(c05Obs{Format: format, Reader: "-", Added: added, Buckets: []c05Bucket{}, Err: "close: " + err.Error()})
 		return
 	}
 	raw, _ := os.ReadFile(path)
